@@ -280,6 +280,7 @@ package sshfx
 
 //@ func (*InitPacket).UnmarshalBinary
 //@   property C08, C19
+//@   results err
 //@   alloc-bound 2*len(data) + 1024
 //@   loop 1 invariant bufOK(buf) && (buf.Err == nil || buf.off == len(buf.b)) && len(buf.b) == len(data) && len(p.Extensions) >= 0 && len(p.Extensions) * 8 <= buf.off
 //@   loop 1 invariant len(data) < 4 ==> buf.Err != nil
@@ -289,6 +290,7 @@ package sshfx
 
 //@ func (*VersionPacket).UnmarshalBinary
 //@   property C08, C19
+//@   results err
 //@   alloc-bound 2*len(data) + 1024
 //@   loop 1 invariant bufOK(buf) && (buf.Err == nil || buf.off == len(buf.b)) && len(buf.b) == len(data) && len(p.Extensions) >= 0 && len(p.Extensions) * 8 <= buf.off
 //@   loop 1 invariant len(data) < 4 ==> buf.Err != nil
